@@ -96,6 +96,14 @@ def run(index, rep, tier):
         for q in LINK_WRITERS:
             index.function(q)
 
+    # ---------------- R03.4 identity selection
+    with rep.section("R03.4 identity selection"):
+        rep.floor("R03.4", "membership filters over a stored bipartition encoding", 1, identity_selection_rule(index, rep, "R03.4", [TM + "_tree"]))
+
+    # ---------------- R03.2 failure atomicity
+    with rep.section("R03.2 failure atomicity"):
+        rep.floor("R03.2", "explicit raises in the link book-keeping functions", 4, failure_atomicity_rule(index, rep, "R03.2", sorted(LINK_WRITERS)))
+
     # ---------------- R03.2
     with rep.section("R03.2"):
         npair = 0
@@ -517,6 +525,69 @@ def _honours_flag(index, rep, fi):
               "%s: with update_bipartitions truthy every structural change (%d sites) is followed on every path by a re-encode or a call forwarding the flag" % (fi.name, len(snodes)),
               "%s changes the structure (`%s`) and can then return, with update_bipartitions truthy, without re-encoding or forwarding the flag: the caller asked for current bipartitions and gets those of the previous structure"
               % (fi.qualname, norm_stmt(first.stmt)[:70] if first is not None else ""))
+
+
+def failure_atomicity_rule(index, rep, rid, quals):
+    """An operation that raises its documented error must leave the tree as it was: in the book-keeping
+    functions no link field has been written on any path that reaches an explicit `raise`."""
+    n = 0
+    for q in quals:
+        fi = index.functions.get(q)
+        if fi is None or fi.name == "__init__":     # an object under construction is not yet part of any tree
+            continue
+        cfg = cfg_of(fi)
+        raises = [x for x in cfg.nodes if x.kind == "stmt" and isinstance(x.ast, ast.Raise) and x.ast.exc is not None]
+        if not raises:
+            continue
+        wnodes = {}
+        for w in writes_in(fi.node):
+            if w.attr in LINK_FIELDS or w.attr in ("tail_node", "head_node"):
+                for x in stmt_nodes(cfg, w.stmt):
+                    wnodes[x.id] = w
+        for r in raises:
+            n += 1
+            # backwards: is there a link write from which this raise is reachable?
+            bad = None
+            for x in cfg.nodes:
+                if x.id not in wnodes:
+                    continue
+                # the write has completed: continue from its normal successors only (its own failure has written nothing)
+                after = [t for lab, t in x.succ if lab != "e"]
+                if any(y is r for y in cfg.reach(after, follow_exc=True)):
+                    bad = x
+                    break
+            rep.check(bad is None, rid, fi.qualname, "link field written before `%s`" % norm_stmt(r.stmt)[:60], fn_where(fi, bad.stmt if bad is not None else r.stmt),
+                      "%s: `%s` is reached before any link field is written" % (fi.name, norm_stmt(r.stmt)[:50]),
+                      "%s writes `%s` and can then raise `%s`: the caller gets the documented error but the tree is left half-edited (a node still listed under its parent with its parent pointer / edge tail cleared), so a refused operation does not leave the tree well formed"
+                      % (fi.qualname, norm_stmt(bad.stmt)[:60] if bad is not None else "", norm_stmt(r.stmt)[:70]))
+    return n
+
+
+def identity_selection_rule(index, rep, rid, modules):
+    """Bipartition hashes and compares by split bitmask, and a unifurcation's edge carries the same split as
+    its child's: picking particular objects out of a stored encoding must go by id(), never by value."""
+    n = 0
+    for m in modules:
+        for fi in index.functions_in_module(m):
+            enc = {"self.bipartition_encoding"}
+            for a in walk_no_nested(fi.node):
+                if isinstance(a, ast.Assign) and isinstance(a.targets[0], ast.Name) and norm(a.value).endswith(".bipartition_encoding"):
+                    enc.add(a.targets[0].id)
+            for c in ast.walk(fi.node):
+                gens = c.generators if isinstance(c, (ast.ListComp, ast.SetComp, ast.GeneratorExp)) else []
+                for g in gens:
+                    if not (norm(g.iter) in enc or norm(g.iter).endswith(".bipartition_encoding")) or not isinstance(g.target, ast.Name):
+                        continue
+                    for cond in g.ifs:
+                        for t in ast.walk(cond):
+                            if isinstance(t, ast.Compare) and len(t.ops) == 1 and isinstance(t.ops[0], (ast.In, ast.NotIn)):
+                                n += 1
+                                by_id = isinstance(t.left, ast.Call) and call_name(t.left) == "id" and t.left.args and norm(t.left.args[0]) == g.target.id
+                                by_value = isinstance(t.left, ast.Name) and t.left.id == g.target.id
+                                rep.check(by_id or not by_value, rid, fi.qualname, "bipartitions selected out of the encoding by value: %s" % norm(t)[:60], fn_where(fi, t),
+                                          "%s: members of the stored encoding are selected by id()" % fi.name,
+                                          "%s filters the stored bipartition encoding with `%s`: Bipartition objects hash and compare by their split bitmask, and a spliced-out unifurcation's edge has the same split as the surviving child's edge, so selecting by value also drops (or keeps) the survivor's bipartition - the encoding list no longer equals a fresh encoding" % (fi.qualname, norm(t)[:80]))
+    return n
 
 
 def _in_loop(fn_node, stmt):
